@@ -28,6 +28,12 @@ class Raised(Exception):
         self.name = name
 
 
+class Model:
+    """a concrete stand-in object whose attributes and methods the interpreted fragment may use (block.__name__, source.compile())"""
+    def __init__(self, **kw):
+        self.__dict__.update(kw)
+
+
 class ListWalk:
     def __init__(self, leaf_classes, env=None, funcs=None, budget=20000, assert_raises=False):
         self.assert_raises = assert_raises
@@ -52,6 +58,13 @@ class ListWalk:
             raise AnalysisError(f"list walker: free name {e.id}")
         if isinstance(e, ast.Attribute) and norm(e) in self.env:
             return self.env[norm(e)]          # a dotted path bound as a variable (top._sched.index)
+        if isinstance(e, ast.Attribute):
+            try:
+                base = self.ev(e.value)
+            except AnalysisError:
+                base = None
+            if isinstance(base, Model) and hasattr(base, e.attr):
+                return getattr(base, e.attr)
         if isinstance(e, (ast.List, ast.Tuple, ast.Set)):
             out = []
             for x in e.elts:
@@ -116,6 +129,29 @@ class ListWalk:
                     out.append(self.ev(e.elt))
             self.env = saved
             return set(out) if isinstance(e, ast.SetComp) else out
+        if isinstance(e, ast.JoinedStr):
+            out = ''
+            for v in e.values:
+                if isinstance(v, ast.Constant):
+                    out += str(v.value)
+                elif isinstance(v, ast.FormattedValue) and v.format_spec is None and v.conversion in (-1, 114, 115):
+                    x = self.ev(v.value)
+                    out += repr(x) if v.conversion == 114 else str(x)
+                else:
+                    raise AnalysisError(f"list walker: f-string part outside the vocabulary: {norm(e)[:80]}")
+            return out
+        if isinstance(e, ast.DictComp) and len(e.generators) == 1:
+            g = e.generators[0]
+            out = {}
+            saved = dict(self.env)
+            for v in list(self.ev(g.iter)):
+                self.bind(g.target, v)
+                if all(self.ev(c) for c in g.ifs):
+                    out[self.ev(e.key)] = self.ev(e.value)
+            self.env = saved
+            return out
+        if isinstance(e, ast.Dict) and all(k is not None for k in e.keys):
+            return {self.ev(k): self.ev(v) for k, v in zip(e.keys, e.values)}
         if isinstance(e, ast.Call):
             return self.call(e)
         raise AnalysisError(f"list walker: expression outside the vocabulary: {norm(e)[:80]}")
@@ -149,18 +185,28 @@ class ListWalk:
                 fn = self.funcs[n]
                 if isinstance(fn, ast.FunctionDef):
                     return self.invoke(fn, args)
-                return fn(*args)
+                return fn(*args, **{k.arg: self.ev(k.value) for k in e.keywords if k.arg})
+            if n == 'sorted' and len(e.keywords) == 1 and e.keywords[0].arg == 'key' and norm(e.keywords[0].value) in ('repr', 'str', 'len'):
+                return sorted(args[0], key={'repr': repr, 'str': str, 'len': len}[norm(e.keywords[0].value)])
+            if n in ('repr', 'str') and len(args) == 1:
+                return repr(args[0]) if n == 'repr' else str(args[0])
             simple = {'len': len, 'list': list, 'set': set, 'tuple': tuple, 'reversed': lambda x: list(reversed(x)),
                       'enumerate': lambda x: list(enumerate(x)), 'zip': lambda *x: list(zip(*x)), 'range': lambda *x: list(range(*x)),
-                      'sorted': sorted, 'any': any, 'all': all, 'deque': list, 'iter': list}
+                      'sorted': sorted, 'any': any, 'all': all, 'deque': list, 'iter': list, 'int': int, 'bool': bool, 'min': min, 'max': max,
+                      'print': lambda *a, **k: None}
             if n in simple:
                 return simple[n](*args)
             if n in self.env and callable(self.env[n]):
                 return self.env[n](*args)
             raise AnalysisError(f"list walker: call outside the vocabulary: {norm(e)[:80]}")
+        if isinstance(f, ast.Attribute) and norm(f) in self.env and callable(self.env[norm(f)]):
+            return self.env[norm(f)](*[self.ev(a) for a in e.args if not isinstance(a, ast.Starred)],
+                                     **{k.arg: self.ev(k.value) for k in e.keywords if k.arg})
         if isinstance(f, ast.Attribute):
             recv = self.ev(f.value)
             args = [self.ev(a) for a in e.args]
+            if isinstance(recv, Model) and callable(getattr(recv, f.attr, None)):
+                return getattr(recv, f.attr)(*args)
             m = f.attr
             if isinstance(recv, list) and m in ('append', 'extend', 'pop', 'insert', 'popleft', 'appendleft', 'reverse', 'clear', 'copy', 'index'):
                 if m == 'popleft':
@@ -170,6 +216,11 @@ class ListWalk:
                 if m == 'extend':
                     return recv.extend(list(args[0]))
                 return getattr(recv, m)(*args)
+            if isinstance(recv, str) and m in ('replace', 'join', 'startswith', 'endswith', 'strip', 'lstrip', 'rstrip', 'split', 'format', 'lower', 'upper'):
+                return getattr(recv, m)(*args)
+            if isinstance(recv, dict) and m in ('items', 'keys', 'values', 'get', 'setdefault', 'pop', 'update'):
+                res = getattr(recv, m)(*args)
+                return list(res) if m in ('items', 'keys', 'values') else res
             if isinstance(recv, set) and m in ('add', 'update', 'discard', 'remove', 'copy', 'union'):
                 if m == 'update':
                     return recv.update(set(args[0]))
@@ -177,7 +228,8 @@ class ListWalk:
         if isinstance(f, (ast.Subscript, ast.Attribute)):
             fn = self.ev(f)
             if callable(fn):
-                return fn(*[self.ev(a) for a in e.args if not isinstance(a, ast.Starred)])
+                return fn(*[self.ev(a) for a in e.args if not isinstance(a, ast.Starred)],
+                          **{k.arg: self.ev(k.value) for k in e.keywords if k.arg})
         raise AnalysisError(f"list walker: call outside the vocabulary: {norm(e)[:80]}")
 
     def invoke(self, fn, args):
@@ -265,6 +317,8 @@ class ListWalk:
                 raise _Continue()
             elif isinstance(st, ast.Pass):
                 pass
+            elif isinstance(st, (ast.Import, ast.ImportFrom)):
+                raise ImportError(f"{norm(st)[:60]} (no such module in the model)")
             elif isinstance(st, ast.Assert):
                 if not self.ev(st.test):
                     if self.assert_raises:
